@@ -271,7 +271,6 @@ from props.ids_common import steps_of
 REQUIRES = ["BobV.Ids.Model", "BobV.Ids.Classes"]
 VARS = ["VA", "VB", "VC", "VD"]
 TOOLNAMES = ["ta", "tb", "tc", "td"]
-LEAFS = ["leaf0", "leaf1", "leaf2"]
 STEPS = ["checkout", "build", "package"]
 
 
@@ -305,6 +304,10 @@ def dump_all(descs_orders, ids=True):
             p = core.scratch_dir("idscls")
             dirs.append(p)
             proj.write_project({k: v for k, v in desc.items() if not k.startswith("_")}, p)
+            if "vprop" in desc.get("config", {}).get("plugins", []):
+                os.makedirs(os.path.join(p, "plugins"), exist_ok=True)
+                with open(os.path.join(p, "plugins", "vprop.py"), "w") as f:
+                    f.write(PLUGIN)
             jobs.append({"dir": p, "order": order, "ids": ids})
         halves = [jobs[0::2], jobs[1::2]]
         with ThreadPoolExecutor(max_workers=2) as ex:
@@ -381,7 +384,21 @@ def gen_body(rng, tag, p, is_recipe=False):
         b["fingerprintVars"] = rng.sample(VARS, 1)
     if on(0.06):
         b["scriptLanguage"] = rng.choice(["bash", "PowerShell"])
+    # plugin defined properties (removed again when the project loads no plugin)
+    if on(0.35):
+        b["VerifProp"] = "vp_" + tag
+    if on(0.15):
+        b["VerifNote"] = "vn_" + tag
     return b
+
+
+PLUGIN = '''from bob.input import PluginProperty
+class StrProp(PluginProperty):
+    @staticmethod
+    def validate(data):
+        return isinstance(data, str)
+manifest = {'apiVersion': "0.21", 'properties': {'VerifProp': StrProp, 'VerifNote': StrProp}}
+'''
 
 
 def pick_inherit(rng, pool, chain=None):
@@ -475,8 +492,27 @@ def gen_hierarchy(rng):
     root["depends"] = [{"name": "tprov", "use": ["tools"], "forward": True}] + root.get("depends", []) + tested
     root.pop("provideDeps", None)
     recipes["root"] = root
-    return {"classes": classes, "recipes": recipes, "config": {"bobMinimumVersion": "0.25"},
+    desc = {"classes": classes, "recipes": recipes, "config": {"bobMinimumVersion": "0.25"},
             "default": {"environment": {"GLOBAL1": "g"}}, "_kind": kind, "_classes": cnames}
+    # "Shared packages must be deterministic": either nothing is shared or no checkout is indeterministic
+    if any(b.get("shared") for b in bodies_of(desc)):
+        if rng.random() < 0.5:
+            for b in bodies_of(desc):
+                if b.get("shared"):
+                    b["shared"] = False
+        else:
+            for b in bodies_of(desc):
+                for k in [k for k in b if k.startswith(("checkoutScript", "checkoutFinalize"))]:
+                    del b[k]
+                if b.get("checkoutDeterministic") is False:
+                    del b["checkoutDeterministic"]
+    if rng.random() < 0.5:
+        desc["config"]["plugins"] = ["vprop"]
+    else:
+        for b in bodies_of(desc):
+            b.pop("VerifProp", None)
+            b.pop("VerifNote", None)
+    return desc
 
 
 def add_unreferenced(desc, rng):
@@ -657,6 +693,8 @@ def oracle_findings(label, base, other):
             out.append(("class-object-changed-by-resolving-recipes",
                         "resolveClasses of the recipes changed a class object (%s): %s" % (tag, first_diff(before, d["post_classes"])), {}))
             break
+    if "parse_error" in other and "parse_error" not in base and (other.get("error") or {}).get("recipe", "").endswith("_unref"):
+        return out          # the added recipe itself reaches a cycle / a missing class: its own error, not an influence
     if ("parse_error" in base) != ("parse_error" in other):
         out.append(("parse-result-depends-on:" + label, "project parses under one listing only: %s / %s" % (
             base.get("parse_error"), other.get("parse_error")), {}))
@@ -944,6 +982,8 @@ def run_classes(ctx):
                     ctx.count("classes:anon-base")
                     if pre["anon"][pre["recipes"][rn]["anon"]]["anon"]:
                         ctx.count("classes:nested-anon-base")
+                if len(pre["recipes"][rn]["scalars"]) > len(SCALARS):
+                    ctx.count("classes:with-plugin-properties")
                 if m["kind"] == "ok" and d["post"][rn]["lang"] == "pwsh":
                     ctx.count("classes:language-pwsh")
                 if len(cl) >= 2:
@@ -954,23 +994,33 @@ def run_classes(ctx):
                                 "ancestors": cl, "kind": m["kind"]})
     if not cases:
         return
-    pre_txt = "\n".join("Definition tbl_%d := %s." % (k, v) for k, v in sorted(tables.items()))
-    pre_txt += "\nDefinition glue := %s.\n" % glue_lit(glue)
     # when the private linearisation helper could not be observed the order is compared through every field it
     # determines and rs_order itself is normalised away
     with_order = all(m["dump"]["post"][m["recipe"]].get("order") is not None for m in meta if m["kind"] == "ok")
     ctx.count("classes:linearisation-observed-directly", 1 if with_order else 0)
-    pre_txt += ("Definition run_case (p : table * cls) : res resolved :=\n"
-                "  match resolve (fst p) glue (snd p) with\n"
-                "  | Ok x => Ok {| rs_order := rs_order x; rs_lang := rs_lang x; rs_checkout := rs_checkout x; rs_build := rs_build x;\n"
-                "                  rs_package := rs_package x; rs_codet := rs_codet x; rs_updateIf := rs_updateIf x;\n"
-                "                  rs_scms := rs_scms x; rs_asserts := rs_asserts x; rs_fp := rs_fp x; rs_m := rs_m x |}\n"
-                "  | Err e => Err e end.\n")
-    shard = max(1, (len(cases) + 1) // 2)
-    bad, log = coq.run_cases(ctx, REQUIRES, "run_case", "eqb_res", cases, shard=shard, tag="cls", preamble=pre_txt)
-    if bad is None:
-        ctx.tie_broken("Ids-classes", {"what": "model evaluation failed", "log": log})
-        return
+    run_case_txt = ("Definition run_case (p : table * cls) : res resolved :=\n"
+                    "  match resolve (fst p) glue (snd p) with\n"
+                    "  | Ok x => Ok {| rs_order := %s; rs_lang := rs_lang x; rs_checkout := rs_checkout x; rs_build := rs_build x;\n"
+                    "                  rs_package := rs_package x; rs_codet := rs_codet x; rs_updateIf := rs_updateIf x;\n"
+                    "                  rs_scms := rs_scms x; rs_asserts := rs_asserts x; rs_fp := rs_fp x; rs_m := rs_m x |}\n"
+                    "  | Err e => Err e end.\n") % ("rs_order x" if with_order else "[]")
+    glue_txt = "Definition glue := %s.\n" % glue_lit(glue)
+    if not with_order:
+        cases = [(a, b.replace("(Ok {| rs_order := ", "(Ok {| rs_order := tl_nil ", 1)) for a, b in cases]
+        run_case_txt = "Definition tl_nil (l : list str) : list str := [].\n" + run_case_txt
+    # two coqc at a time, each chunk with the tables it needs
+    bad = []
+    CH = 240
+    for c0 in range(0, len(cases), CH):
+        chunk = cases[c0:c0 + CH]
+        keys = sorted({m["project"] for m in meta[c0:c0 + CH]})
+        pre_txt = "\n".join("Definition tbl_%d := %s." % (k, tables[k]) for k in keys) + "\n" + glue_txt + run_case_txt
+        b, log = coq.run_cases(ctx, REQUIRES, "run_case", "eqb_res", chunk, shard=max(1, (len(chunk) + 1) // 2), tag="cls", preamble=pre_txt)
+        if b is None:
+            ctx.tie_broken("Ids-classes", {"what": "model evaluation failed", "log": log})
+            return
+        bad += [c0 + i for i in b]
+    pre_txt = glue_txt + run_case_txt
     ctx.validated(len(cases) - len(bad))
     for i in bad[:3]:
         m = meta[i]
@@ -984,8 +1034,7 @@ def run_classes(ctx):
         fields = None
         terms = ["res_diff (run_case (%s, %s)) %s" % (table_lit(small), cls_lit(pre["recipes"][m["recipe"]]), exp),
                  "match resolve %s glue %s with Ok x => rs_order x | Err _ => [] end" % (table_lit(small), cls_lit(pre["recipes"][m["recipe"]]))]
-        vals, _ = coq.eval_terms(ctx, REQUIRES, terms, preamble="Definition glue := %s.\n%s" % (
-            glue_lit(glue), pre_txt[pre_txt.index("Definition run_case"):]))
+        vals, _ = coq.eval_terms(ctx, REQUIRES, terms, preamble=pre_txt)
         if vals:
             bools = [x.strip() for x in vals[0].strip("[] \n").split(";")] if "[" in vals[0] else []
             fields = [f for f, b in zip(FIELDS, bools) if b == "false"] or vals[0][:200]
